@@ -277,8 +277,21 @@ Lemma get_system_info_inv w : P w -> P (snd (get_system_info cfg w)).
 Proof. intros H. unfold get_system_info. by_consume. Qed.
 Lemma initialize_inv w : P w -> P (snd (initialize cfg w)).
 Proof. intros H. unfold initialize. by_consume. Qed.
+(* dropping the current connection is something a poll can do (an Err item was yielded, the budget is used up), so it preserves P *)
+Lemma drop_cur_inv w : P w -> P (drop_cur w).
+Proof.
+  intros H.
+  pose proof (poll_preserves 2 {| r_left := 0; r_first := true; r_last := 0; r_ph := RAfterErr; r_timeout := 0; r_throttle := 0;
+                                  r_seq := {| q_cmd := []; q_replies := []; q_mode := Single |} |} w H) as K.
+  exact K.
+Qed.
+
 Lemma get_pending_inv w : P w -> P (snd (get_pending cfg w)).
-Proof. intros H. unfold get_pending. by_consume. Qed.
+Proof.
+  intros H. unfold get_pending.
+  match goal with |- context [consume ?f cfg ?r w ?a ?h ?fin] => pose proof (consume_inv h fin f r w a H) as K; destruct (consume f cfg r w a h fin) as [[l|e] w1] end;
+    cbn [snd] in K; [exact K|]. destruct e; try exact K. cbn [snd]. apply drop_cur_inv. exact K.
+Qed.
 Lemma cancel_by_receipt_inv rn w : P w -> P (snd (cancel_by_receipt cfg rn w)).
 Proof. intros H. unfold cancel_by_receipt. by_consume. Qed.
 Lemma read_card_inv w : P w -> P (snd (read_card cfg w)).
@@ -1237,3 +1250,17 @@ Qed.
 Corollary call_attempts {A B} cfg q T w acc (h : A -> N -> value -> option (cres B) * A) fin fuel :
   (attempts (w_log (snd (consume fuel cfg (start_retry q T) w acc h fin))) <= attempts (w_log w) + 20)%nat.
 Proof. apply (consume_attempts cfg h fin fuel (start_retry q T) w acc). Qed.
+
+(* ================================================================== an unexpected reply (since the fix of F13) *)
+(* the query for a dangling pre-authorisation answered by a packet that is decodable and in the reply set but not what this exchange
+   may be answered with (the client's UnexpectedPacket): the exchange is left unfinished, so no connection is kept — the next
+   sequence starts by connecting (retry_next at RIdle with w_cur = None) *)
+Theorem unexpected_reply_abandons_connection cfg w w' :
+  get_pending cfg w = (RErr EUnexpectedPacket, w') -> w_cur w' = None.
+Proof.
+  unfold get_pending.
+  match goal with |- context [consume ?f cfg ?r w ?a ?h ?fin] => destruct (consume f cfg r w a h fin) as [[l|e] w1] end.
+  - discriminate.
+  - destruct e; intros E; try (injection E as E1 E2; discriminate E1); try discriminate.
+    injection E as <-. apply drop_cur_clears.
+Qed.
